@@ -91,10 +91,13 @@ def replay_fix_stdin(cex):
     d = desc_of(cex)
     feu = bool(cex.get("fix_even_unparsable"))
     exp = expected_fix_exit([d], feu)
-    code, changed, sql = oc.cli_fix_stdin(d, feu)
-    if exp is not None and code != exp:
-        return f"`sqlfluff fix -` (stdin) exits {code}, expected {exp}, on {sql!r} (violations (kind, suppressed, warning): {d}, fix_even_unparsable={feu})"
-    return None
+
+    def once():
+        code, changed, sql = oc.cli_fix_stdin(d, feu)
+        if exp is not None and code != exp:
+            return f"`sqlfluff fix -` (stdin) exits {code}, expected {exp}, on {sql!r} (violations (kind, suppressed, warning): {d}, fix_even_unparsable={feu})"
+        return None
+    return oc.each_style(once)
 
 
 def known_f21(entry):
@@ -109,19 +112,25 @@ def replay_fix(cex):
     d = desc_of(cex)
     feu = bool(cex.get("fix_even_unparsable"))
     exp = expected_fix_exit([d], feu)
-    code, changed, sql, out = oc.cli_fix_on_disk(d, feu)
-    if exp is not None and code != exp:
-        return f"`sqlfluff fix` exits {code}, expected {exp}, on {sql!r} (violations (kind, suppressed, warning): {d}, fix_even_unparsable={feu})"
-    return None
+
+    def once():
+        code, changed, sql, out = oc.cli_fix_on_disk(d, feu)
+        if exp is not None and code != exp:
+            return f"`sqlfluff fix` exits {code}, expected {exp}, on {sql!r} (violations (kind, suppressed, warning): {d}, fix_even_unparsable={feu})"
+        return None
+    return oc.each_style(once)
 
 
 def replay_lint(cex):
     d = desc_of(cex)
-    code, sql, out = oc.cli_lint_on_disk(d)
     exp = int(bool(oc.live(d)))
-    if code != exp and not cex.get("nofail"):
-        return f"`sqlfluff lint` exits {code}, expected {exp}, on {sql!r} (violations {d})"
-    return None
+
+    def once():
+        code, sql, out = oc.cli_lint_on_disk(d)
+        if code != exp and not cex.get("nofail"):
+            return f"`sqlfluff lint` exits {code}, expected {exp}, on {sql!r} (violations {d})"
+        return None
+    return oc.each_style(once)
 
 
 def known_f20(entry):
